@@ -163,6 +163,10 @@ def build(case):
             deck.imp_cards[0] = (parts, list(toks) + ['1', '1'])
             for cel in deck.cells[-2:]:
                 cel.imp = None
+        if not deck.imp_cards and rng.random() < 0.6:
+            # the importance of universe cells does not decide anything
+            for cel in rng.sample(deck.cells[-2:], rng.randint(1, 2)):
+                cel.imp = {'n': '0'}
         hosts = rng.sample(range(ncell), min(ncell, rng.randint(2, 4)))
         if not any(k in zeros for k in hosts):
             hosts[0] = sorted(zeros)[0]
@@ -250,9 +254,15 @@ def run(case, ctx):
     if match:
         noted = [int(tok) for tok in match.group(1).split(',') if tok.strip()]
     out.counters['note_lines'] += 1 if match else 0
-    if noted != zero:
+    # the statement is about level-0 cells; zero-importance cells of
+    # universes may be listed as well, nothing else
+    level0_ids = {c.id for c in level0}
+    uni_zero = {c.id for c in deck.cells if c.u and deck.importance_zero(c)}
+    noted0 = [n for n in noted if n in level0_ids]
+    stray = [n for n in noted if n not in level0_ids and n not in uni_zero]
+    if noted0 != zero or stray:
         out.violation('note-list', f'NOTE lists {noted}, zero-importance '
-                      f'cells in card order are {zero}')
+                      f'level-0 cells in card order are {zero}')
     out.sample = {'cells': [' '.join(M.cell_atoms(deck, c))
                             for c in deck.cells[:3]],
                   'imp_cards': [f'imp:{p} ' + ' '.join(map(str, t))
